@@ -366,6 +366,29 @@ def c114(ctx):
         tomb = [p_ for p_ in ssk if p_ not in accept]
         ctx.check(R, f, "tombstone-sets-skip-key", bool(tomb), "%s: the tombstone arm records the key in skip_key and moves on" % m,
                   "%s: a tombstone no longer records its key in skip_key" % m)
+    # absolute positioning forgets the previously returned key: seek_to_first, seek_to_last and seek are siblings and each
+    # clears skip_key before it moves the wrapped cursor (a stale skip_key would screen out the entry a re-seek should land on)
+    for m in ("seek_to_first", "seek_to_last", "seek"):
+        f = ctx.fn(R, "<sst::pruning_cursor::PruningCursor as sst::Cursor>::" + m)
+        if not f:
+            continue
+        inner = [pt for name, pt in cursor_calls(f) if name == m]
+        resets = []
+        for w in P.field_writes(f, r"pruning_cursor::PruningCursor$", "skip_key"):
+            st = f.blocks[w[0]].st[w[1]] if w[1] < len(f.blocks[w[0]].st) else None
+            if st is None:
+                continue
+            rv = st["rv"]
+            is_none = rv.get("r") == "agg" and rv.get("variant") == "None"
+            if rv.get("r") == "use":
+                srcs = P.origins(f, rv["a"])
+                is_none = bool(srcs) and all(s_["k"] == "agg" and s_.get("variant") == "None" for s_ in srcs)
+            if is_none:
+                resets.append(w)
+        ctx.check(R, f, "reset-before-positioning", bool(inner) and bool(resets) and not P.order(f, resets, inner),
+                  "%s clears skip_key before it positions the wrapped cursor" % m,
+                  "%s positions the wrapped cursor without first clearing skip_key: on a reused cursor the entry it should land on is "
+                  "screened out as an older version of the previously returned key" % m, pt=inner[0] if inner else None)
     f = ctx.fn(R, "sst::pruning_cursor::PruningCursor::new")
     if f:
         n = 0
